@@ -11,7 +11,7 @@ import lib
 import render_common as rc
 
 RULE = ("cases = (text, width); exhaustive over the alphabet {a,b,' ','\\n','\\t','-'} up to length 6 (quick) / 8 (thorough; "
-        "length 8 up to the a<->b renaming) x widths 1..6, plus random texts up to 400 characters (long words, hyphenated words, "
+        "lengths 7, 8 up to the a<->b renaming) x widths 1..6, plus random texts up to 400 characters (long words, hyphenated words, "
         "runs of blanks, tabs, \\r \\v \\f, unicode blanks, lines of exactly the width) x widths 1..100, EntryWidget texts, and "
         "widths 0, -1, -7 (ValueError) ; non-trivial = some source line needs >= 2 output lines or has length exactly w")
 
@@ -220,13 +220,13 @@ def classify(case, i, m, spec):
             % (s[:60], w, [lib.uncps(l) for l in i[1]][:8], [lib.uncps(l) for l in m[1]][:8] if m[0] == 0 else m))
 
 
-def evaluate(chk, cases, tag):
-    """Run implementation, model and textwrap specification on the cases; record evidence and violations."""
+def evaluate(chk, cases, tag, with_spec=True):
+    """Run implementation, model and (with_spec) the textwrap specification on the cases; record evidence and violations."""
     res_m = rc.model_render([(tree_of(c), c["w"]) for c in cases])
     for c, m in zip(cases, res_m):
         s, w = c["s"], c["w"]
         i = impl(c)
-        spec = spec_lines(s, w)
+        spec = spec_lines(s, w) if with_spec else m
         chk.count()
         if nontrivial(s, w, spec):
             chk.nontriv([s, w])
@@ -275,11 +275,12 @@ def run(chk, tier):
     evaluate(chk, b, "boundary")
     evaluate(chk, random_cases(rng, 1200 if tier == "quick" else 25000), "random")
     evaluate(chk, entry_cases(rng, 300 if tier == "quick" else 3000), "entry")
-    maxlen, sym_from = (6, 99) if tier == "quick" else (8, 8)
+    maxlen, sym_from = (6, 99) if tier == "quick" else (8, 7)
     gen = (dict(kind="text", s=s, w=w) for s in exhaustive_texts(maxlen, sym_from) for w in range(1, 7))
     n = 0
     for batch in batches(gen, 120000):
-        evaluate(chk, batch, "exhaustive")
+        # the independent textwrap.wrap cross-check of the model is run on the texts of length <= 6 only
+        evaluate(chk, batch, "exhaustive", with_spec=len(batch[-1]["s"]) <= 6)
         n += len(batch)
         if len(chk.violations) >= 20:
             break
